@@ -567,6 +567,25 @@ def make_classes(ctx: Ctx) -> Dict[str, type]:
                 if "d" in alt:
                     order.price = order.price + float(alt["d"])
                 mon.probe_altered(self.name, order)
+            pc = self.spec.get("premature")
+            if pc and id(order) not in mon.obj2mo and order.order_id is None:
+                # a kill switch that fires too early: it tries to cancel the order that is only about to be
+                # submitted, is refused, swallows the refusal, and the submission goes ahead
+                self._n_pc = getattr(self, "_n_pc", 0) + 1
+                if self._n_pc % int(pc.get("every", 1)) == 0:
+                    market_ = simulator.id2market[order.market_id]
+                    snap_ = (order.placed_at, order.order_id, bool(order.is_canceled), order.price, order.volume)
+                    try:
+                        market_._cancel_order(cancel=Cancel(order=order))
+                    except ValueError:
+                        mon.probe("premature_cancel_refused")
+                        if (order.placed_at, order.order_id, bool(order.is_canceled), order.price, order.volume) != snap_:
+                            for p_ in sorted(mon.on):
+                                mon.viol(p_, "refused_operation_changed_its_argument",
+                                         {"what": "cancel of an order that is not submitted yet", "before": repr(snap_),
+                                          "after": repr((order.placed_at, order.order_id, bool(order.is_canceled), order.price, order.volume))})
+                    else:
+                        mon.viol("C04", "hostile_op_accepted", {"kind": "premature_cancel"})
             rw = self.spec.get("rewrite")
             if rw:
                 # a user rule that rewrites pending orders the way the shipped OrderMistakeShock does: every
